@@ -44,6 +44,9 @@ PLAN = {
     "C05": lanes("C05", ["sse2", "scalar"], ["coresimd"], engine="e_geom"),
     "C06": lanes("C06", ["sse2", "scalar"], ["coresimd"], engine="e_geom"),
     "C09": lanes("C09", ["sse2", "scalar"], ["coresimd", "libm"], engine="e_geom"),
+    "C10": lanes("C10", ["sse2", "scalar"], ["coresimd"], engine="e_geom"),
+    "C11": lanes("C11", ["sse2", "scalar"], ["coresimd"], engine="e_geom"),
+    "C12": lanes("C12", ["sse2", "scalar"], ["coresimd", "libm"], engine="e_geom"),
     "C13": lanes("C13", ["sse2", "dbg"], ["scalar"]),
     "C14": lanes("C14", ["sse2", "scalar"], ["coresimd"]),
     "C15": lanes("C15", ["sse2", "scalar", "coresimd"], []),
@@ -55,6 +58,9 @@ for _p in ("C13",):
         _r["shards"] = {"quick": 8, "thorough": 16}
 
 RULES = {
+    "C10": "Events: scale / rotation / translation triples with |scale| in [1e-3,1e3], every sign pattern (8 in 3-D, 4 in 2-D), rotations from the structured unit-quaternion generator (all four matrix->quaternion branches), translations over 16 decades. Compose: every SRT constructor of Mat4/DMat4, Affine3A/DAffine3, Affine2/DAffine2, Mat3/Mat3A (2-D), Mat2 and the product of glam's elementary constructors vs the double-double T*R*S (8 eps |s_c| per entry, translation bit-exact). Decompose: translation = last column bit-exact, unit rotation, |scale| = column lengths, negative x scale iff det < 0, recomposition reproduces the input (32 eps |s_c|). Cells (sign pattern x branch) are tabulated; an empty cell makes the run inconclusive.",
+    "C11": "Events: cameras (unit dir and up with |dir x up| >= 1.2e-3 incl. nearly parallel hints, eyes over 13 decades, look_at centres) through look_to/look_at of Mat4, Affine3A, Quat, Mat3, Mat3A and f64 forms: orthonormal, det +1, dir -> -Z (rh) / +Z (lh), up hint -> x = 0 and y > 0 (16 eps / |dir x up|), eye -> origin; every perspective_* (fov in (1e-2, pi-1e-2), aspect 1e-2..1e2, far/near from 1.001 to 1e6) and orthographic_* constructor: frustum corners, centres and interior points at several depths pushed through the stored matrix in f64 must land on the documented NDC values, clip w = -z / +z exactly; project_point3(a) = xyz/w of M*(p,1).",
+    "C12": "Events: lerp end points on all finite lattice pairs (IEEE equality); move_towards (partial / reach / snap-radius boundary zones); clamp_length*, rotate_towards (2-D, 3-D: clamped request incl. negative, length, angle from start, angle to target), vector slerp (zones regular / near_parallel / near_antiparallel), any_orthogonal/orthonormal over the whole sphere incl. z = -1 and z = +-0; quaternion lerp / slerp against the exact interpolants along the shorter arc with partners at angles 1e-7.5..pi-1e-7, Quat::rotate_towards (partial / reach / 1e-4 snap boundary), from_rotation_arc(_colinear, _2d) incl. exactly opposite and equal inputs; FloatExt lerp/inverse_lerp/remap. Angle-derived tolerances: 1e-6 (f32 polynomial acos/sin) + 16 eps / sin(theta).",
     "C05": "Events: (a) every typed conversion path of length <= 4 through the 9-node 3-D representation graph (Quat, Mat3, Mat3A, Mat4, Affine3A, DQuat, DMat3, DMat4, DAffine3; 39 edges incl. f32<->f64 casts) from seeds of four classes (pure rotation from the structured unit-quaternion generator, rigid, general affine with scale/shear, linear): at every node every action form (q*v, M*v, transform_point3/vector3(a), project_point3, M*(p,1)) on probe points is compared with the double-double action of the seed under k*eps_path*(|M|max*|p|+|t|); (b) matrix->quaternion->matrix round trips with bookkeeping of the four conversion branches and their boundaries (a branch never taken makes the run inconclusive); (c) laws: conversion commutes with composition, inversion, identity; (d) the 2-D graph (Affine2, Mat3, Mat3A, Mat2, f64 forms). distinct = distinct (path length, end representation) / (branch, generator kind, boundary flag).",
     "C06": "For each of the 11 matrix/affine types: entries tagged with pairwise distinct bit patterns (NaN payloads, -0, subnormal, infinities; then random bits) are written through every write path (from_cols, from_cols_array, from_cols_array_2d, from_cols_slice incl. longer slices, col_mut, axis fields, AsMut) and read through every read path (to_cols_array(_2d), write_cols_to_slice, col(c)[r], row(r)[c], axis fields, AsRef): every ordered pair of paths, every (r,c), bit-for-bit; transpose; from_diagonal; all (i,j) of the six minor constructors incl. out-of-range (must panic); col/row/col_mut index range; affine transform_point = linear*p + translation under an analytic bound and transform_vector bit-identical when only the translation changes.",
     "C09": "Events: from_axis_angle / from_rotation_x,y,z / from_scaled_axis on Quat, Mat3, Mat3A, Mat4, Affine3A and f64 forms vs the Rodrigues matrix evaluated in double-double from the same angle value (angles dense in [-4pi,4pi], multiples of pi/2 +- 1e-3, tiny, up to 1e6 rad; uniform, axis-aligned and near-axis unit axes), orthonormality, det +1, unit quaternions; from_euler for all 24 variants vs the product of the three reference single-axis rotations in the spelled order (Ex reversed), identically on all types; to_euler rebuild on arbitrary unit quaternions and on triples whose middle angle is within 1e-7.5..1 of the singularity (inputs built by the reference, not by glam), tolerance 16 eps (1 + 1/d) with d measured on the input matrix, 64 eps inside the gimbal branch; to_axis_angle / to_scaled_axis rebuild; 2-D from_angle forms, to_angle, rotate. distinct = (order, zone) / (generator kinds).",
